@@ -175,6 +175,36 @@ def scan_request_writers(src_root, ex: Explorer, res):
 # ---------------------------------------------------------------------------
 # manager
 
+def scan_request_removers(src_root, ex: Explorer):
+    """A request leaves the registry in two places only - remove_request (user: the timer is cancelled first, C18.remove.quiet) and
+    _timeout_search_request (its own timer: reported once, C18.timeout.once).  Whole-tree scan: no other function deletes from, pops from,
+    clears or rebinds `requests` of the search manager (a request dropped anywhere else keeps its armed timer, which later fires for a
+    ticket that is gone, and its removal is never reported)."""
+    import ast
+    src, _ = source(src_root)
+    ctx = Ctx(ex, [])
+    sites = []
+    for mod, qn, node in src.functions():
+        for sub in ast.walk(node):
+            tgt = None
+            if isinstance(sub, ast.Delete):
+                for t in sub.targets:
+                    if isinstance(t, ast.Subscript) and isinstance(t.value, ast.Attribute) and t.value.attr == 'requests':
+                        tgt = 'del'
+            if isinstance(sub, ast.Call) and isinstance(sub.func, ast.Attribute) and sub.func.attr in ('pop', 'popitem', 'clear') \
+                    and isinstance(sub.func.value, ast.Attribute) and sub.func.value.attr == 'requests':
+                tgt = sub.func.attr
+            if isinstance(sub, (ast.Assign, ast.AnnAssign)):
+                for t in (sub.targets if isinstance(sub, ast.Assign) else [sub.target]):
+                    if isinstance(t, ast.Attribute) and t.attr == 'requests' and not qn.endswith('__init__'):
+                        tgt = 'rebind'
+            if tgt and 'search' in mod.name:
+                sites.append((qn, tgt))
+    allowed = {'SearchManager.remove_request', 'SearchManager._timeout_search_request'}
+    bad = [s_ for s_ in sites if s_[0].split(':')[-1] not in allowed and s_[0] not in allowed]
+    ctx.prove('C18.requests.removers', bool(sites) and not bad, f'requests are removed by {sorted(set(sites))}; outside remove_request / _timeout_search_request: {bad}')
+
+
 def mk_manager(it, ctx, *, request_timeout=None, store=None):
     emitted = []
     bus = Stub('bus', emit=Recorder('emit', fn=lambda it2, a, k: emitted.append(a[0]), is_async=True))
@@ -400,7 +430,7 @@ def prove_timeout_and_remove(src_root, ex: Explorer):
 def prove_timer(src_root, ex: Explorer):
     """C18.Timer.handle: self._task is the latest started runner that was not cancelled, or None; a done-callback clears
     the handle only if it is the callback of that very task; cancel() stops the runner the handle designates."""
-    scenarios = ['start', 'start-cancel', 'start-finish', 'reschedule', 'reschedule-cancel', 'cancel-idle']
+    scenarios = ['start', 'start-cancel', 'start-finish', 'reschedule', 'reschedule-cancel', 'cancel-idle', 'reschedule-cancel-same-instant']
 
     def path(ctx: Ctx):
         it = mk(src_root, ctx)
@@ -444,6 +474,17 @@ def prove_timer(src_root, ex: Explorer):
             return
         # reschedule
         it.call(it.getattr(timer, 'reschedule'), [Sym(ctx.fresh_real('new_timeout'), 'real')], {})
+        if sc == 'reschedule-cancel-same-instant':
+            # the user removes the request in the same instant the timer was re-armed: no done-callback has run yet.  The handle must
+            # already designate the re-armed run, otherwise cancel() finds nothing and the timer fires for a removed request
+            it.call(it.getattr(timer, 'cancel'), [], {})
+            finish_cancelled()
+            run_callbacks()
+            finish_cancelled()
+            run_callbacks()
+            ctx.prove('C18.Timer.handle[reschedule-cancel-same-instant]', not live() and timer.attrs['_task'] is None,
+                      f'cancel() right after reschedule() leaves runners {live()!r} alive (handle {timer.attrs["_task"]!r}): a cancelled timer fires at the re-armed deadline')
+            return
         finish_cancelled()
         run_callbacks()                      # the OLD runner's done-callback fires now
         t2 = tasks[1] if len(tasks) > 1 else None
@@ -523,7 +564,7 @@ def prove_wishlist(src_root, ex: Explorer):
 
 
 def items(src_root, tier):
-    return [('tickets', None), ('writers', None), ('reply', None), ('attach', None), ('searches', None), ('timeout', None), ('timer', None), ('wishlist', None)]
+    return [('tickets', None), ('writers', None), ('removers', None), ('reply', None), ('attach', None), ('searches', None), ('timeout', None), ('timer', None), ('wishlist', None)]
 
 
 def run_item(src_root, item, tier):
@@ -533,7 +574,7 @@ def run_item(src_root, item, tier):
     try:
         {'tickets': prove_ticket_generator, 'reply': prove_reply, 'attach': prove_attach, 'searches': prove_searches,
          'timeout': prove_timeout_and_remove, 'timer': prove_timer, 'wishlist': prove_wishlist,
-         'writers': lambda s, e: scan_request_writers(s, e, res)}[kind](src_root, ex)
+         'writers': lambda s, e: scan_request_writers(s, e, res), 'removers': scan_request_removers}[kind](src_root, ex)
     except Unsupported as e:
         res.errors.append(f'{kind}: unsupported: {e}')
     collect(res, ex)
